@@ -20,6 +20,7 @@ const (
 	locURI          = 1
 	locLocal        = 2
 	locVariable     = 3
+	algSHA1         = 0x0004
 	algSHA256       = 0x000B
 	algSHA384       = 0x000C
 	sp155Event3Sig  = "SP800-155 Event3" // exactly 16 bytes
@@ -184,19 +185,23 @@ func varLocator(guid [16]byte, name string) []byte {
 	return append(b, 0, 0)
 }
 
-// logEvent is one TCG_PCR_EVENT2 of the log to write.
+// logEvent is one TCG_PCR_EVENT2 of the log to write. Algs nil = SHA-256 and SHA-384.
 type logEvent struct {
 	PCR  uint32
 	Type uint32
 	Data []byte
+	Algs []uint16
 }
 
-// encodeLog writes a crypto-agile log with a Spec ID Event03 header announcing SHA-256 and SHA-384.
+var algSize = map[uint16]int{algSHA1: 20, algSHA256: 32, algSHA384: 48}
+
+// encodeLog writes a crypto-agile log with a Spec ID Event03 header announcing SHA-1, SHA-256 and SHA-384.
 func encodeLog(events []logEvent) []byte {
 	spec := []byte(specIDEvent03)
 	spec = putU32(spec, 0)          // platformClass
 	spec = append(spec, 0, 2, 0, 2) // minor, major, errata, uintnSize
-	spec = putU32(spec, 2)          // numberOfAlgorithms
+	spec = putU32(spec, 3)          // numberOfAlgorithms
+	spec = putU16(putU16(spec, algSHA1), 20)
 	spec = putU16(putU16(spec, algSHA256), 32)
 	spec = putU16(putU16(spec, algSHA384), 48)
 	spec = append(spec, 0) // vendorInfoSize
@@ -205,21 +210,64 @@ func encodeLog(events []logEvent) []byte {
 	b = append(b, make([]byte, 20)...)
 	b = putArr32(b, spec)
 	for _, e := range events {
+		algs := e.Algs
+		if algs == nil {
+			algs = []uint16{algSHA256, algSHA384}
+		}
 		b = putU32(b, e.PCR)
 		b = putU32(b, e.Type)
-		b = putU32(b, 2)
-		d256, d384 := make([]byte, 32), make([]byte, 48)
-		if e.Type != evNoAction {
-			for i := range d256 {
-				d256[i] = byte(i) ^ byte(len(e.Data))
+		b = putU32(b, uint32(len(algs)))
+		for _, a := range algs {
+			d := make([]byte, algSize[a])
+			if e.Type != evNoAction {
+				for i := range d {
+					d[i] = byte(int(a)*i) ^ byte(len(e.Data))
+				}
 			}
-			for i := range d384 {
-				d384[i] = byte(3*i) ^ byte(len(e.Data))
-			}
+			b = append(putU16(b, a), d...)
 		}
-		b = append(putU16(b, algSHA256), d256...)
-		b = append(putU16(b, algSHA384), d384...)
 		b = putArr32(b, e.Data)
 	}
 	return b
+}
+
+// logHeaderSize is the length of the header record encodeLog writes (offsets inside the event
+// stream are counted from here).
+func logHeaderSize() int { return len(encodeLog(nil)) }
+
+var fillerAlgSets = [][]uint16{{algSHA256, algSHA384}, {algSHA1}, {algSHA256}, {algSHA384}, {algSHA1, algSHA256}, {algSHA1, algSHA256, algSHA384}, {algSHA384, algSHA1}}
+
+// fillerEvents returns n ordinary boot events (never SP800-155 events): mixed digest sets and
+// event-data sizes, mostly small, some just below / at / above 4096, 8192 and 65536, so that
+// field boundaries fall everywhere relative to 4096-byte multiples of the stream.
+func fillerEvents(r interface {
+	IntN(int) int
+	UintN(uint) uint
+}, n int) []logEvent {
+	big := 0
+	out := make([]logEvent, 0, n)
+	for k := 0; k < n; k++ {
+		size := r.IntN(96)
+		switch r.IntN(40) {
+		case 0, 1, 2:
+			size = 200 + r.IntN(1500)
+		case 3:
+			if big < 3 {
+				big++
+				size = []int{4096, 8192, 65536}[r.IntN(3)] + r.IntN(9) - 4
+			}
+		case 4:
+			size = 4096 - 80 + r.IntN(160)
+		}
+		d := make([]byte, size)
+		for i := range d {
+			d[i] = byte(r.UintN(256))
+		}
+		typ := []uint32{evPostCode, evSeparator, evEFIAction, 0x80000001, 0x80000002, 0x80000003, 0x0000000D, evNoAction}[r.IntN(8)]
+		if typ == evNoAction { // a no-action event of another kind
+			d = append([]byte(startupLocality), byte(r.IntN(5)))
+		}
+		out = append(out, logEvent{PCR: uint32(r.IntN(16)), Type: typ, Data: d, Algs: fillerAlgSets[r.IntN(len(fillerAlgSets))]})
+	}
+	return out
 }
